@@ -2402,6 +2402,7 @@ _UFUNC_IMPL = {
     _np.multiply: lambda a, b: _elementwise2(a, b, lambda x, y: x * y),
     _np.true_divide: lambda a, b: _elementwise2(a, b, lambda x, y: to_real(x) / to_real(y), "real"),
     _np.negative: lambda a: -as_symarr(a),
+    _np.heaviside: lambda a, h0: _elementwise2(a, h0, lambda x, h: z3.If(to_real(x) < 0, z3.RealVal(0), z3.If(to_real(x) == 0, to_real(h), z3.RealVal(1))), "real"),
     _np.reciprocal: lambda a: _elementwise1(a, lambda x: 1 / to_real(x), "real"),  # (real-valued model: integer dtypes are exercised by the concrete 'integer' runs)
     _np.absolute: sym_abs,
     _np.sign: sym_sign,
